@@ -7,10 +7,12 @@ Steps (all in a fresh scratch worktree of /repo under /tmp, removed afterwards):
   1. demo on the clean tree must exit 0
   2. git apply patch; package must import; demo must exit 1
   3. the baseline test-suite result must be unchanged (128 stable tests pass)
-Then the patch is applied to /repo itself (git -C /repo apply), every quick
-check is run with --no-write, and /repo is restored (git -C /repo checkout -- .).
+Then every quick check is run with --no-write --repo against a second scratch
+worktree that carries the patch (tools/scratch.py); /repo is never written.
 """
 import json, os, shutil, subprocess, sys, tempfile
+sys.path.insert(0, os.path.dirname(os.path.abspath(__file__)))
+from scratch import scratch
 
 def sh(cmd, cwd=None, **kw):
   return subprocess.run(cmd, cwd=cwd, shell=isinstance(cmd, str), capture_output=True, text=True, **kw)
@@ -53,20 +55,15 @@ def main():
   # run the checks against /repo with the patch applied
   det = {}
   if res.get('applies'):
-    assert sh('git -C /repo status --porcelain --untracked-files=no').stdout.strip() == '', '/repo not clean'
-    ra = sh(['git', '-C', '/repo', 'apply', patch])
-    try:
-      if ra.returncode == 0:
+    with scratch(patch) as (wt2, applied):
+      if applied:
         for i in range(1, 21):
           p = 'C%02d' % i
-          r = sh(['/verif/check', p, '--no-write'])
+          r = sh(['/verif/check', p, '--no-write', '--repo', wt2])
           if r.returncode != 0:
             rules = sorted({l.split('rule=')[1].split()[0] for l in r.stdout.splitlines() if 'rule=' in l})
             det[p] = {'exit': r.returncode, 'rules': rules,
                       'msg': [l.strip() for l in r.stdout.splitlines() if l.strip().startswith('at ') or 'ANALYSIS-ERROR' in l][:3]}
-    finally:
-      sh('git -C /repo checkout -- .')
-    assert sh('git -C /repo status --porcelain --untracked-files=no').stdout.strip() == ''
   res['detected_by'] = det
   res['detected_own_property'] = pid in det and det[pid]['exit'] == 1
   print(json.dumps(res, indent=1))
@@ -77,7 +74,7 @@ def main():
     shutil.copy(demo, os.path.join(dst, 'demo.py'))
     meta['confirmed_by_main'] = {k: res.get(k) for k in ('demo_clean', 'demo_patched', 'baseline', 'baseline_ok', 'touched', 'confirmed')}
     meta['checks_that_report_it'] = det
-    meta['what_was_run'] = 'tools/try_seed.py: fresh scratch worktree of /repo: demo.py clean (exit %s), git apply, demo.py patched (exit %s), tools/baseline.py (stable_pass unchanged: %s); then git -C /repo apply, ./check C01..C20 --no-write, git -C /repo checkout -- .' % (res.get('demo_clean'), res.get('demo_patched'), res.get('baseline_ok'))
+    meta['what_was_run'] = 'tools/try_seed.py: fresh scratch worktree of /repo: demo.py clean (exit %s), git apply, demo.py patched (exit %s), tools/baseline.py (stable_pass unchanged: %s); then ./check C01..C20 --no-write --repo <second scratch worktree with the patch>' % (res.get('demo_clean'), res.get('demo_patched'), res.get('baseline_ok'))
     json.dump(meta, open(os.path.join(dst, 'meta.json'), 'w'), indent=1)
 
 main()
